@@ -483,7 +483,7 @@ func dischargeAll(obls []*Obligation, prelude string, par, quickS, fullS int, ke
 	var rwg sync.WaitGroup
 	for _, o := range obls {
 		o := o
-		if o.Status == "unsat" || o.Status == "sat" || o.queryFile == "" || o.Cover {
+		if o.Status == "unsat" || o.Status == "sat" || o.queryFile == "" || o.Cover || o.NoRetry {
 			continue
 		}
 		rwg.Add(1)
